@@ -1,4 +1,8 @@
 """Per-property check definitions."""
+import json
+import os
+import time
+
 from . import checks, common
 from .checks import CODES as C
 
@@ -171,4 +175,73 @@ def c17(tier, seed):
         bounds=BOUNDS)
 
 
-PROPS = {"C13": c13, "C17": c17, "C16": c16, "C02": c02, "C06": c06, "C08": c08, "C07": c07, "C10": c10, "C11": c11, "C12": c12, "C04": c04, "C05": c05, "C03": c03, "C09": c09}
+def c01(tier, seed):
+    from harness import props, gen
+    from . import c01 as q
+    text, names = props.gen_acq(tier, envs=("a",), only_blocking=True, budget=3 if tier == "quick" else 4)
+    seq_text, seq_names = props.gen_seq(tier, seed, 48 if tier == "quick" else 240)
+    shape_private = {}
+    for sh in gen.all_shapes(tier):
+        shape_private[sh.name] = {int(i): k for (i, k, _r) in sh.leaves if i.isdigit()}
+
+    def post(results, run):
+        t0 = time.time()
+        cat, kinds = q.collect_catalogue([r for r in results if r["entry"].startswith("h_acq::")], shape_private)
+        lines = []
+        cov = {"wait_point_catalogue_size": len(cat), "wait_point_locks": len(kinds), "combination_queries": []}
+        sym = sum(r.get("symbolic_waits", 0) for r in results)
+        rc = 0
+        if sym:
+            lines.append("INCONCLUSIVE %d wait events with symbolic lock ids" % sym)
+            rc = 2
+        if not cat:
+            lines.append("INCONCLUSIVE no wait points collected (vacuous)")
+            return cov, 2, lines
+        smt_for_cross = None
+        for n in (2, 3, 4):
+            verdict, dt, model, smt2 = q.deadlock_query(cat, n)
+            cov["combination_queries"].append({"threads": n, "verdict": verdict, "solver_s": round(dt, 2)})
+            common.log("[C01] combination query N=%d over %d wait points: %s (%.1fs)" % (n, len(cat), verdict, dt))
+            if n == 3:
+                smt_for_cross = smt2
+            if verdict == "sat":
+                path = os.path.join(common.EVIDENCE_DIR, "replays", "C01-deadlock-N%d.json" % n)
+                os.makedirs(os.path.dirname(path), exist_ok=True)
+                confirmed = q.confirm_deadlock(run, model) if hasattr(q, "confirm_deadlock") else None
+                with open(path, "w") as fh:
+                    json.dump({"property": "C01", "kind": "deadlock-state", "threads": n, "natively_confirmed": bool(confirmed), "model": model}, fh, indent=1)
+                if confirmed:
+                    lines.append("VIOLATION property=C01 replay=%s" % path)
+                    rc = 1
+                else:
+                    lines.append("UNCONFIRMED deadlock candidate (N=%d): %s" % (n, json.dumps(model)[:600]))
+                    rc = max(rc, 2) if rc != 1 else 1
+                break
+            if verdict != "unsat":
+                lines.append("INCONCLUSIVE combination query N=%d: %s" % (n, verdict))
+                rc = max(rc, 2)
+        if smt_for_cross is not None and (tier != "quick" or os.environ.get("VERIF_CROSS")):
+            cov["solver_cross_check_N3"] = q.cross_check(smt_for_cross, "n3")
+            vs = set(v for v in cov["solver_cross_check_N3"].values())
+            if len(vs) > 1 or (vs and list(vs)[0] not in ("unsat", "sat")):
+                lines.append("INCONCLUSIVE solvers disagree on the N=3 query: %s" % cov["solver_cross_check_N3"])
+                rc = max(rc, 2)
+        cov["wait_point_samples"] = [{"awaits": k[0], "mode": "X" if k[1] == 0 else "S", "holds_x": sorted(k[2]), "holds_s": sorted(k[3]),
+                                      "from": sorted(v)[:2]} for k, v in list(sorted(cat.items(), key=lambda kv: (len(kv[0][2]) + len(kv[0][3])), reverse=True))[:5]]
+        cov["combination_time_s"] = round(time.time() - t0, 2)
+        return cov, rc, lines
+
+    return checks.run_mirsym_property(
+        "C01", tier, seed, {"h_acq.rs": text, "h_seq.rs": seq_text},
+        codes("M_SELF_WAIT", "M_HELD_AT_API_BEGIN", "M_HELD_AT_KEY_BACK", "M_KEY_MODEL", "M_HOLD_AND_WAIT"),
+        opts={"collect_waits": True},
+        assumptions=sys_assumptions + [
+            "thread-modular argument: every thread is analysed alone against an adversarial environment (any lock it does not hold may be held by others at any raw operation), which over-approximates its behaviour in every interleaving with any other threads; a deadlock state is a choice of one wait point per thread with compatible holdings in which every awaited lock is unavailable because of the other waiting threads",
+            "between acquisitions a thread holds nothing (C03, checked on the same runs), so threads with several acquisitions contribute the union of their wait points; critical sections terminate and guards are dropped (premises of the statement)",
+            "RwLock wake policy is a symbolic Boolean in the query (reader blocked by a holder-writer, or - writer-preferring - by a queued writer while the lock is read-held)",
+            "interference budget per acquisition: 3 (quick) / 4 (thorough) busy answers; sorted collections wait at most once per member, the retrying collection's wait points are round-independent"],
+        bounds=dict(BOUNDS, threads="2..4 per combination query (symmetry-reduced)", single_thread_histories="48 (quick) / 240 (thorough) seeded pairs A;B;A of complete API calls over shapes sharing locks"),
+        post=post)
+
+
+PROPS = {"C13": c13, "C01": c01, "C17": c17, "C16": c16, "C02": c02, "C06": c06, "C08": c08, "C07": c07, "C10": c10, "C11": c11, "C12": c12, "C04": c04, "C05": c05, "C03": c03, "C09": c09}
